@@ -8,7 +8,8 @@ use serde_json::{json, Value};
 use std::collections::BTreeSet;
 use std::path::Path;
 
-pub const DIRS: [&str; 10] = ["a", "ab", "a/c", "a/cd", "a/c/e", "b", "a/c/e/g", "abc", "caf\u{e9}", "caf\u{e9}s"];
+// "a-b" and "a.c": siblings of "a" whose next byte sorts before '/', i.e. between "a" and "a/..." in byte order
+pub const DIRS: [&str; 12] = ["a", "ab", "a/c", "a/cd", "a/c/e", "b", "a/c/e/g", "abc", "caf\u{e9}", "caf\u{e9}s", "a-b", "a.c"];
 pub const EXTRA: [&str; 13] = [
     "lib", "lib2", "lib/x", "a/f", "a/c/f", "a/c/gen", "ab/f", "b/f", "x.txt", "a/c/e/h", "li", "caf\u{e9}/f", "caf",
 ];
@@ -18,7 +19,7 @@ pub fn setup(root: &Path) {
         root,
         &[
             "a", "ab", "a/c", "a/cd", "a/c/e", "b", "a/c/e/g", "abc", "lib", "lib2", "a/c/gen",
-            "lib/x", "caf\u{e9}", "caf\u{e9}s",
+            "lib/x", "caf\u{e9}", "caf\u{e9}s", "a-b", "a.c",
         ],
         &["x.txt", "a/c/e/h"],
     );
